@@ -1,5 +1,208 @@
 package main
 
+// atn_decode.go — thorough tier of C01-G1: decode the parser's serialized ATN,
+// a constant table in the generated source, with the antlr runtime's
+// deserializer, and compare its precedence facts with the rule methods.
+// The parser itself is not run.
+
+import (
+	"fmt"
+	"go/ast"
+	"go/token"
+	"reflect"
+	"sort"
+	"strconv"
+	"strings"
+
+	"github.com/antlr/antlr4/runtime/Go/antlr"
+)
+
+func (c *Ctx) serializedATN() []uint16 {
+	p := c.Pkgs[pParser]
+	var out []uint16
+	for _, file := range p.Syntax {
+		if !strings.HasSuffix(c.Fset.Position(file.Pos()).Filename, "gengine_parser.go") {
+			continue
+		}
+		ast.Inspect(file, func(n ast.Node) bool {
+			vs, ok := n.(*ast.ValueSpec)
+			if !ok || len(vs.Names) != 1 || vs.Names[0].Name != "parserATN" || len(vs.Values) != 1 {
+				return true
+			}
+			cl, ok := vs.Values[0].(*ast.CompositeLit)
+			if !ok {
+				return true
+			}
+			for _, e := range cl.Elts {
+				if bl, ok := e.(*ast.BasicLit); ok && bl.Kind == token.INT {
+					v, _ := strconv.ParseUint(bl.Value, 0, 16)
+					out = append(out, uint16(v))
+				}
+			}
+			return false
+		})
+	}
+	return out
+}
+
+func unexportedInt(v interface{}, field string) (int64, bool) {
+	rv := reflect.ValueOf(v)
+	for rv.Kind() == reflect.Ptr || rv.Kind() == reflect.Interface {
+		rv = rv.Elem()
+	}
+	if rv.Kind() != reflect.Struct {
+		return 0, false
+	}
+	f := rv.FieldByName(field)
+	if !f.IsValid() {
+		return 0, false
+	}
+	return f.Int(), true
+}
+
 func (c *Ctx) ruleATNDecode(rule string) {
-	c.Note("ATN cross-check not built into this binary")
+	data := c.serializedATN()
+	if len(data) < 100 {
+		c.Lost(rule, "the parserATN constant of the generated parser")
+		return
+	}
+	var atn *antlr.ATN
+	func() {
+		defer func() {
+			if r := recover(); r != nil {
+				c.Check(rule, "deserialize", false, 0, "the serialized ATN cannot be decoded: %v", r)
+			}
+		}()
+		atn = antlr.NewATNDeserializer(nil).DeserializeFromUInt16(data)
+	}()
+	if atn == nil {
+		return
+	}
+	// rule names (index = rule number)
+	ruleNames := []string{}
+	p := c.Pkgs[pParser]
+	for _, file := range p.Syntax {
+		ast.Inspect(file, func(n ast.Node) bool {
+			vs, ok := n.(*ast.ValueSpec)
+			if !ok || len(vs.Names) != 1 || vs.Names[0].Name != "ruleNames" || len(vs.Values) != 1 {
+				return true
+			}
+			if cl, ok := vs.Values[0].(*ast.CompositeLit); ok {
+				for _, e := range cl.Elts {
+					if bl, ok := e.(*ast.BasicLit); ok {
+						s, _ := strconv.Unquote(bl.Value)
+						ruleNames = append(ruleNames, s)
+					}
+				}
+			}
+			return false
+		})
+	}
+	ruleIdx := map[string]int{}
+	for i, n := range ruleNames {
+		ruleIdx[n] = i
+	}
+	// walk the ATN with reflection (its state table is unexported): state -> ruleIndex, transitions
+	type facts struct {
+		preds   []int64 // precedence of predicate transitions inside the rule
+		recArgs []int64 // precedence passed on recursive rule transitions
+	}
+	byRule := map[int]*facts{}
+	deref := func(v reflect.Value) reflect.Value {
+		for v.IsValid() && (v.Kind() == reflect.Ptr || v.Kind() == reflect.Interface) {
+			if v.IsNil() {
+				return reflect.Value{}
+			}
+			v = v.Elem()
+		}
+		return v
+	}
+	// find a (possibly promoted through embedded pointers) field by name
+	var field func(v reflect.Value, name string, depth int) reflect.Value
+	field = func(v reflect.Value, name string, depth int) reflect.Value {
+		v = deref(v)
+		if !v.IsValid() || v.Kind() != reflect.Struct || depth > 4 {
+			return reflect.Value{}
+		}
+		if f := v.FieldByName(name); f.IsValid() {
+			return f
+		}
+		for i := 0; i < v.NumField(); i++ {
+			if v.Type().Field(i).Anonymous {
+				if f := field(v.Field(i), name, depth+1); f.IsValid() {
+					return f
+				}
+			}
+		}
+		return reflect.Value{}
+	}
+	states := reflect.ValueOf(atn).Elem().FieldByName("states")
+	nStates, nTrans := 0, 0
+	nRules := reflect.ValueOf(atn).Elem().FieldByName("ruleToStartState").Len()
+	for i := 0; i < states.Len(); i++ {
+		st := deref(states.Index(i))
+		if !st.IsValid() {
+			continue
+		}
+		nStates++
+		ri := int(field(st, "ruleIndex", 0).Int())
+		trs := field(st, "transitions", 0)
+		if !trs.IsValid() {
+			continue
+		}
+		for j := 0; j < trs.Len(); j++ {
+			tr := deref(trs.Index(j))
+			if !tr.IsValid() {
+				continue
+			}
+			nTrans++
+			switch tr.Type().Name() {
+			case "PrecedencePredicateTransition":
+				if byRule[ri] == nil {
+					byRule[ri] = &facts{}
+				}
+				byRule[ri].preds = append(byRule[ri].preds, tr.FieldByName("precedence").Int())
+			case "RuleTransition":
+				if int(tr.FieldByName("ruleIndex").Int()) == ri {
+					if byRule[ri] == nil {
+						byRule[ri] = &facts{}
+					}
+					byRule[ri].recArgs = append(byRule[ri].recArgs, tr.FieldByName("precedence").Int())
+				}
+			}
+		}
+	}
+	c.extra["atn_states"] = nStates
+	c.extra["atn_transitions"] = nTrans
+	c.Check(rule, "rule-count", len(ruleNames) == 43 && nRules == len(ruleNames), 0, "%d rule names, %d rules in the ATN (%d states, %d transitions decoded)", len(ruleNames), nRules, nStates, nTrans)
+	for _, rn := range []string{"mathExpression", "expression"} {
+		alts, _, fn := c.leftRecursive(strings.ToUpper(rn[:1]) + rn[1:])
+		if fn == nil {
+			continue
+		}
+		f := byRule[ruleIdx[rn]]
+		if f == nil {
+			c.Check(rule, rn+"#atn-facts", false, 0, "no precedence facts for rule %s in the ATN", rn)
+			continue
+		}
+		var wantP, wantR []int64
+		for _, a := range alts {
+			wantP = append(wantP, a.k)
+			wantR = append(wantR, a.kNext)
+		}
+		gotP := append([]int64{}, f.preds...)
+		var gotR []int64
+		for _, k := range f.recArgs {
+			if k != 0 {
+				gotR = append(gotR, k)
+			}
+		}
+		s := func(x []int64) string {
+			sort.Slice(x, func(i, j int) bool { return x[i] < x[j] })
+			return fmt.Sprint(x)
+		}
+		c.Check(rule, rn+"#predicates", s(gotP) == s(wantP), fn.Pos(), "precedence predicates in the ATN %s vs. in the rule method %s", s(gotP), s(wantP))
+		c.Check(rule, rn+"#recursion-precedences", s(gotR) == s(wantR), fn.Pos(), "precedences passed to the right operand in the ATN %s vs. in the rule method %s", s(gotR), s(wantR))
+	}
+	c.Min(rule, 5)
 }
